@@ -77,6 +77,9 @@ func c20KnownPattern(sp c20Spec, o c20Outcome) string {
 func init() {
 	// ---- end-to-end oracle: generated histories on SQLite -------------------------------------
 	register("C20", func(r *Result, rng *rand.Rand, tier string) {
+		if !c20Only("history") {
+			return
+		}
 		n := 1000
 		if tier == "thorough" {
 			n = 6000
@@ -109,6 +112,13 @@ func init() {
 				r.H("e2e.feature", f)
 			}
 			r.H("e2e.v1.fields", itoa(len(sp.V1)))
+		for _, part := range strings.Split(sp.Cfg.get().String(), "+") {
+			r.H("e2e.cfg", part)
+		}
+		r.H("e2e.call", fmt.Sprintf("v1:%d values, v2:%d values", len(c20CallArgs(nil, sp.Extra1)), len(c20CallArgs(nil, sp.Extra2))))
+		for _, d := range c20Demanded(sp.V2, sp.Cfg.get(), c20Explicit(sp.Extra1, sp.Extra2)) {
+			r.H("e2e.nested-association", d)
+		}
 			if o.Stage == "ok" {
 				kinds := map[string]bool{}
 				for _, s := range o.V2DDL {
@@ -143,10 +153,31 @@ func init() {
 		}
 	})
 	replayers["C20/history"] = c20ReplayHistory
-	register("C20", c20TieColumn)
-	register("C20", c20TieAuto)
-	register("C20", c20TieReorder)
-	register("C20", c20TieIndexes)
+	for _, e := range []struct {
+		name string
+		fn   suiteFn
+	}{{"column", c20TieColumn}, {"auto", c20TieAuto}, {"reorder", c20TieReorder}, {"indexes", c20TieIndexes}} {
+		name, fn := e.name, e.fn
+		register("C20", func(r *Result, rng *rand.Rand, tier string) {
+			if c20Only(name) {
+				fn(r, rng, tier)
+			}
+		})
+	}
+}
+
+// development aid: C20_ONLY=history,relations,… restricts the run to the named suites (unset = everything)
+func c20Only(name string) bool {
+	only := os.Getenv("C20_ONLY")
+	if only == "" {
+		return true
+	}
+	for _, o := range strings.Split(only, ",") {
+		if o == name {
+			return true
+		}
+	}
+	return false
 }
 
 func itoa(n int) string {
